@@ -316,11 +316,11 @@ def skip_cursor_rule(crate, prop="C10"):
                     if pl is not None:
                         for o in origins(b, pl["l"], identity=[]):
                             if o["kind"] == "call" and o["block"] in tt_calls:
-                                adv.setdefault(o["block"], set()).add(db)
+                                adv.setdefault(o["block"], set()).add((db, i))
         # blocks that inspect the token (discriminant of the TokenTree payload or as_char on its Punct)
         inspect = {}
         for blk in range(b.n):
-            for st in b.stmts(blk):
+            for sti, st in enumerate(b.stmts(blk)):
                 if st["k"] != "assign" or st["rv"]["k"] != "discr":
                     continue
                 pj = st["rv"]["pl"]["p"]
@@ -330,7 +330,7 @@ def skip_cursor_rule(crate, prop="C10"):
                 if is_token:
                     for o in origins(b, st["rv"]["pl"]["l"], identity=[]):
                         if o["kind"] == "call" and o["block"] in tt_calls:
-                            inspect.setdefault(o["block"], set()).add(blk)
+                            inspect.setdefault(o["block"], set()).add((blk, sti))
         for blk, t in b.calls():
             if fn_matches(t, r"proc_macro2::Punct::as_char$") and not b.is_cleanup(blk):
                 for o in origins(b, op_local(t["args"][0]), identity=[]):
@@ -346,8 +346,8 @@ def skip_cursor_rule(crate, prop="C10"):
                    b.file(), lines[x])
         for x in sorted(set(adv) & tested):
             ins = inspect.get(x, set())
-            for ab in adv[x]:
-                ok = any(b.dominates(i, ab) for i in ins)
+            for (ab, ai) in adv[x]:
+                ok = any(b.dominates(ib, ab) and (ib != ab or ii < ai) for (ib, ii) in ins)
                 r.inst(fn=name, advance_block=ab, dominated_by_inspection_of_same_token=ok)
                 if not ok:
                     r.fail(prop, "skip-advances-before-test %s" % name,
